@@ -12,12 +12,12 @@ var checks = map[string]checkSpec{
 	"C02": {
 		Scenarios: []scnSpec{{Name: "reader", Share: 1}},
 		Quick:     45 * time.Second, Thorough: 12 * time.Minute, Level: "exploration",
-		Rule: "Seeded runs of a partition-bound Reader against a simulated partition whose physical layout is generated (formats 0/1/2, every codec, v1 wrappers with relative/absolute inner offsets, compaction holes, missing tails, retained empty batches, responses cut at the byte limit), with appends, retention, SetOffset in all modes, leader moves and network/broker faults; every delivered message is compared with the stored log and the expected position.",
+		Rule: "Seeded runs of a partition-bound Reader against a simulated partition whose physical layout is generated (formats 0/1/2, every codec, v1 wrappers with relative/absolute inner offsets, compaction holes, missing tails, retained empty batches, responses cut at the byte limit), with appends, retention, SetOffset in all modes, leader moves and network/broker faults; every delivered message is compared with the stored log and the expected position. In a quarter of the runs SetOffset is called from a second goroutine while FetchMessage may be waiting: a call overlapped by SetOffset may be served from the earlier position or from the target, every later call must be served from the target.",
 	},
 	"C03": {
 		Scenarios: []scnSpec{{Name: "group", Share: 1}},
 		Quick:     50 * time.Second, Thorough: 15 * time.Minute, Level: "exploration",
-		Rule: "Seeded histories of 1-4 group Readers (FetchMessage+CommitMessages and ReadMessage users, sync and interval commits) against the simulated coordinator: members joining late, closing, crashing (black-holed until evicted), coordinator moves, error codes / cuts / slow answers on every group API, appends during reading; commits, hand-overs and resume points are checked against the coordinator's journal (R1-R5) and every leader assignment against the C14 invariants.",
+		Rule: "Seeded histories of 1-4 group Readers (FetchMessage+CommitMessages and ReadMessage users, sync and interval commits) against the simulated coordinator: members joining late, closing, crashing (black-holed until evicted), coordinator moves, error codes / cuts / slow answers on every group API, appends during reading; commits, hand-overs and resume points are checked against the coordinator's journal (R1-R5) and every leader assignment against the C14 invariants. Brokers list the partitions of a topic in ascending, descending, rotated or odd-before-even order.",
 	},
 	"C15": {
 		Scenarios: []scnSpec{{Name: "cgroup", Share: 1}},
@@ -32,7 +32,7 @@ var checks = map[string]checkSpec{
 	"C06": {
 		Scenarios: []scnSpec{{Name: "crosstalk", Share: 1}},
 		Quick:     40 * time.Second, Thorough: 12 * time.Minute, Level: "exploration",
-		Rule: "2-8 goroutines share one Conn (ReadOffset with injective answers, ReadPartitions of distinct topics, ReadOffsets, Brokers, SetDeadline racing with I/O) or one Transport/Client (ListOffsets, Metadata, OffsetFetch, Fetch of pairwise distinct targets) with contexts cancelled or expiring mid-flight, slow / silent brokers, cuts and error codes; every call must return its own (precomputed) answer or an error, and correlation ids must be unique per connection.",
+		Rule: "2-8 goroutines share one Conn (ReadOffset with injective answers, ReadPartitions of distinct topics, ReadOffsets, Brokers, SetDeadline racing with I/O) or one Transport/Client (ListOffsets, Metadata, OffsetFetch, Fetch of pairwise distinct targets) with contexts cancelled or expiring mid-flight, slow / silent brokers, cuts and error codes; every call must return its own (precomputed) answer or an error, and correlation ids must be unique per connection. Conn mode also abandons fetch responses part-way (short-buffer Batch.Read, one message, unread) while the others' calls are in flight.",
 	},
 	"C11": {
 		Scenarios: []scnSpec{{Name: "connerr", Share: 1, CountKey: "connerr"}},
@@ -42,12 +42,12 @@ var checks = map[string]checkSpec{
 	"C17": {
 		Scenarios: []scnSpec{{Name: "cutresp", Share: 1, CountKey: "cutresp"}},
 		Quick:     45 * time.Second, Thorough: 15 * time.Minute, Level: "fault_enumeration",
-		Rule: "For every response kind of the corpus (Conn: ApiVersions, Metadata v1/v6, ListOffsets, Produce v2/v3/v7, CreateTopics, DeleteTopics, Fetch v2/v5/v10 with magic 0/1/2 and gzip/snappy/zstd payloads; Transport: Fetch, Metadata, ListOffsets, Produce, OffsetFetch, OffsetCommit, FindCoordinator, JoinGroup, SyncGroup, Heartbeat, LeaveGroup, CreateTopics, DeleteTopics, InitProducerID, ApiVersions, DescribeGroups, ListGroups at the low and high ends of their negotiable versions incl. flexible ones) the response is delivered up to byte k and the connection then ends with EOF or RST, for every k in [0, 2048] (positions beyond the response length deliver it whole: the complete-value check); the run index walks a bijection of that space, so the thorough tier covers every (kind, k, mode) once.",
+		Rule: "For every response kind of the corpus (Conn: ApiVersions, Metadata v1/v6, ListOffsets, Produce v2/v3/v7, CreateTopics, DeleteTopics, Fetch v2/v5/v10 with magic 0/1/2 and gzip/snappy/zstd payloads; Transport: Fetch, Metadata, ListOffsets, Produce, OffsetFetch, OffsetCommit, FindCoordinator, JoinGroup, SyncGroup, Heartbeat, LeaveGroup, CreateTopics, DeleteTopics, InitProducerID, ApiVersions, DescribeGroups, ListGroups at the low and high ends of their negotiable versions incl. flexible ones) the response is delivered up to byte k and the connection then ends with EOF or RST, for every k in [0, 2048] (positions beyond the response length deliver it whole: the complete-value check); each case in two variants: plain, and (Conn) with a second goroutine's call pending on the connection / (Transport) on a connection that has already served an exchange and comes from the idle pool; a success after a cut is only accepted when the same request was re-issued on another connection, and a successful Produce must be in the log. The run index walks a bijection of that space, so the thorough tier covers every (kind, k, mode, variant) once.",
 	},
 	"C20": {
 		Scenarios: []scnSpec{{Name: "lenfuzz", Share: 0.55, CountKey: "lenfuzz", MemLimitKB: 8 << 20}, {Name: "sizecut", Share: 0.4, CountKey: "sizecut", MemLimitKB: 8 << 20}, {Name: "saslraw", Share: 0.05, CountKey: "saslraw", MemLimitKB: 8 << 20}},
 		Quick:     25 * time.Second, Thorough: 10 * time.Minute, Level: "fault_enumeration",
-		Rule:   "For every Transport/Client response kind of the corpus, every length or count field of the encoded response (frame size, fixed and compact string/bytes/array lengths, tagged-field counts and sizes, record-set size, batch length / message size and, left with their wrong checksum, the lengths inside record batches) is overwritten with each value of {-2^31, -2, -1, 0, 1, 2^16, 2^31-1, (varints:) 2^32, 2^63-1, true-1, true+1, rest-of-frame+1}; the call must return (no panic, no process death), within its deadline, and allocate no more than 64 x bytes received + 1 MiB (+ a fixed decompressor allowance).",
+		Rule:   "For every Transport/Client response kind of the corpus, every length or count field of the encoded response (frame size, fixed and compact string/bytes/array lengths, tagged-field counts and sizes, record-set size, batch length / message size and, left with their wrong checksum, the lengths inside record batches) is overwritten with each value of {-2^31, -2, -1, 0, 1, 2^16, 2^31-1, (varints:) 2^32, 2^63-1, true-1, true+1, rest-of-frame+1} (lenfuzz); every response is also announced as 1 MiB / 64 MiB / 2^31-1 bytes and delivered up to byte k for every k, after which the broker closes or stalls (sizecut); and the raw SASL token that follows a version-0 handshake gets each hostile length with 0/3/40 bytes behind it (saslraw). The call must return (no panic, no process death), within its deadline, and allocate no more than 64 x bytes received + 1 MiB (+ a fixed decompressor allowance).",
 		Assume: []string{"allocation is measured with runtime.MemStats.TotalAlloc around the call in a single-goroutine-at-a-time simulation"},
 	},
 	"C12": {
@@ -58,7 +58,7 @@ var checks = map[string]checkSpec{
 	"C19": {
 		Scenarios: []scnSpec{{Name: "queries", Share: 1}},
 		Quick:     35 * time.Second, Thorough: 10 * time.Minute, Level: "exploration",
-		Rule: "Random static cluster states (1-4 brokers, topics/partitions spread over leaders, log start offsets from 0 to beyond 2^33, record timestamps, committed offsets per group) queried through Conn (ReadOffsets, ReadOffset(time), Seek in every whence mode with and without SeekDontCheck, ReadPartitions) and Client (ListOffsets spanning many topics/partitions/leaders with mixed first/last/time requests, OffsetFetch, ConsumerOffsets, OffsetCommit, Metadata) by 1-3 goroutines, with per-partition error codes and an unreachable leader for a subset; every returned value is compared with the model and an injected failure must appear on its partition only.",
+		Rule: "Random static cluster states (1-4 brokers, topics/partitions spread over leaders, log start offsets from 0 to beyond 2^33, record timestamps, committed offsets per group) queried through Conn (ReadOffsets, ReadOffset(time), Seek in every whence mode with and without SeekDontCheck, ReadPartitions) and Client (ListOffsets spanning many topics/partitions/leaders with mixed first/last/time requests, OffsetFetch, ConsumerOffsets, OffsetCommit, Metadata) by 1-3 goroutines, with per-partition error codes and an unreachable leader for a subset; every returned value is compared with the model and an injected failure must appear on its partition only. ListOffsets asks 1-3 look-ups of distinct kinds per partition; failures can be confined to one kind of look-up, and the partition's entry must then carry the error.",
 	},
 	"C18": {
 		Scenarios: []scnSpec{{Name: "sasl", Share: 1}},
@@ -68,7 +68,7 @@ var checks = map[string]checkSpec{
 	"C13": {
 		Scenarios: []scnSpec{{Name: "balancers", Share: 0.8}, {Name: "writer", Params: "faults=0", Share: 0.2}},
 		Quick:     30 * time.Second, Thorough: 5 * time.Minute, Level: "exploration",
-		Rule: "Concurrent part (simulated): 1-6 goroutines call Balance on one RoundRobin (ChunkSize 0..5, fixed and varying partition counts) or LeastBytes under the seeded scheduler, which owns the interleaving of the balancers' mutexes; the recorded invoke/return history (event sequence numbers) is checked for linearizability against a sequential model with porcupine, followed by an exact quiescent continuation of the round-robin cycle; Hash / ReferenceHash with a caller-supplied hasher that yields inside Write are shared by 2-5 goroutines. Hash part (seeded input generation, not simulation): keys of every length mod 4, high-bit bytes, nil versus empty, partition counts 1..1000 against independent re-implementations of Sarama's FNV-1a partitioners, librdkafka's CRC32 partitioner and Java's murmur2 toPositive % n. Monitor: every Balance call a Writer makes in the writer scenario is compared with the same references and must return an offered partition.",
+		Rule: "Concurrent part (simulated): 1-6 goroutines call Balance on one RoundRobin (ChunkSize 0..5, fixed and varying partition counts) or LeastBytes under the seeded scheduler, which owns the interleaving of the balancers' mutexes; the recorded invoke/return history (event sequence numbers) is checked for linearizability against a sequential model with porcupine, followed by an exact quiescent continuation of the round-robin cycle; Hash / ReferenceHash with a caller-supplied hasher that yields inside Write are shared by 2-5 goroutines. Hash part (seeded input generation, not simulation): keys of every length mod 4, high-bit bytes, nil versus empty, partition counts 1..1000 against independent re-implementations of Sarama's FNV-1a partitioners, librdkafka's CRC32 partitioner and Java's murmur2 toPositive % n. Monitor: every Balance call a Writer makes in the writer scenario is compared with the same references and must return an offered partition. Writer part: topics of up to 300 partitions (the partition-list cache grows in steps of 128; process-wide caches are emptied at the start of each run); the list offered to the balancer must be 0..n-1 for the topic's n partitions.",
 	},
 	"C14": {
 		Scenarios: []scnSpec{{Name: "gbalance", Share: 0.7}, {Name: "cgroup", Share: 0.15}, {Name: "group", Share: 0.15}},
@@ -78,12 +78,12 @@ var checks = map[string]checkSpec{
 	"C16": {
 		Scenarios: []scnSpec{{Name: "codecs", Share: 1}},
 		Quick:     40 * time.Second, Thorough: 10 * time.Minute, Level: "exploration",
-		Rule: "1-4 goroutines share one codec value (gzip at two levels, snappy framed/unframed/faster/best, lz4, zstd at two levels) and each runs a generated history of streams through the pooled readers and writers: clean round trips with generated Write partitions and Read buffer sizes biased to the 32 KiB / 64 KiB boundaries, the ReadFrom / WriteTo fast paths, streams written by reference encoders (stdlib gzip incl. multi-member, golang/snappy raw blocks, eapache xerial, hand-framed multi-block xerial, pierrec lz4 and klauspost zstd with other options), sinks that fail permanently or once at a generated byte, sources that are truncated or fail at a generated byte (also returning data and error together), streams abandoned mid-way with and without Close. The scheduler switches goroutines inside the simulated Read/Write calls so pooled objects migrate between goroutines in seed-decided order; pools are emptied before each run so that one run is one self-contained history. Oracle: payload equality, acceptance by the reference decoder of the format used directly, prefix-only output and reported errors under faults.",
+		Rule: "1-4 goroutines share one codec value (gzip at two levels, snappy framed/unframed/faster/best, lz4, zstd at two levels) and each runs a generated history of streams through the pooled readers and writers: clean round trips with generated Write partitions and Read buffer sizes biased to the 32 KiB / 64 KiB boundaries, the ReadFrom / WriteTo fast paths, streams written by reference encoders (stdlib gzip incl. multi-member, golang/snappy raw blocks, eapache xerial, hand-framed multi-block xerial, pierrec lz4 and klauspost zstd with other options), sinks that fail permanently or once at a generated byte, sources that are truncated or fail at a generated byte (also returning data and error together), streams abandoned mid-way with and without Close. The scheduler switches goroutines inside the simulated Read/Write calls so pooled objects migrate between goroutines in seed-decided order; pools are emptied before each run so that one run is one self-contained history. Oracle: payload equality, acceptance by the reference decoder of the format used directly, prefix-only output and reported errors under faults. The snappy reader (kafka-go's own WriteTo) is also consumed by a few Read calls followed by WriteTo.",
 	},
 	"C05": {
 		Scenarios: []scnSpec{{Name: "records", Share: 0.6}, {Name: "writer", Params: "faults=0", Share: 0.2}, {Name: "writer", Params: "faults=2", Share: 0.2}},
 		Quick:     40 * time.Second, Thorough: 10 * time.Minute, Level: "exploration",
-		Rule: "Consume: partitions pre-loaded with generated physical layouts (uncompressed format 0, formats 1 and 2 with every codec, v1 wrappers with dense and gapped relative inner offsets, compaction holes, headers, control batches, fetch versions 2..11 with down-conversion) are fetched concurrently through Client.Fetch and Conn.ReadBatch; the oracle is the independent decoder run over the very bytes the broker model sent: same records, offsets, null-vs-empty keys/values, headers, millisecond timestamps; control batches hidden by Client.Fetch; key/value bytes of records held back while other responses are decoded must still be intact when finally read; a fault flips one byte inside the checksummed part of one batch and no record of that batch may surface. Produce: Conn.WriteMessages / WriteCompressedMessages, Client.Produce and (writer scenario, fault-free and with broker error codes that make the Writer retry) Writer with nil/empty keys and values, headers and sub-millisecond timestamps; every request is strictly decoded by the broker model (lengths, CRC, counts, offset deltas) and the decoded records are compared with what was submitted.",
+		Rule: "Consume: partitions pre-loaded with generated physical layouts (uncompressed format 0, formats 1 and 2 with every codec, v1 wrappers with dense and gapped relative inner offsets, compaction holes, headers, control batches, fetch versions 2..11 with down-conversion) are fetched concurrently through Client.Fetch and Conn.ReadBatch; the oracle is the independent decoder run over the very bytes the broker model sent: same records, offsets, null-vs-empty keys/values, headers, millisecond timestamps; control batches hidden by Client.Fetch; key/value bytes of records held back while other responses are decoded must still be intact when finally read; a fault flips one byte inside the checksummed part of one batch and no record of that batch may surface. Produce: Conn.WriteMessages / WriteCompressedMessages, Client.Produce and (writer scenario, fault-free and with broker error codes that make the Writer retry) Writer with nil/empty keys and values, headers and sub-millisecond timestamps; every request is strictly decoded by the broker model (lengths, CRC, counts, offset deltas) and the decoded records are compared with what was submitted. One produce call in six carries 600-2500 records (several 64 KiB pages, size/checksum placeholders patched across page boundaries).",
 	},
 	"C04": {
 		Scenarios: []scnSpec{{Name: "fields", Share: 0.5}, {Name: "fields", Flavour: "unsafe", Share: 0.25}, {Name: "connerr", Share: 0.1}, {Name: "queries", Share: 0.15}},
